@@ -7,15 +7,22 @@ Driver/C02 — runs the parser front ends of Model/ParseGuards on the harness' r
       edits: comma list of  t<n> (truncate) | p<off>:<hex> (overwrite) | a<hex> (append)
       → `<class> big=<0|1>`: class = panic / err where the front end decides, `abort` when a
         front-end allocation exceeds the worker's cap, otherwise (front end passes, or the parser
-        has no front-end model) the observed class is repeated; big = a front-end allocation
-        exceeds c·len+k or a capped one exceeds MAX_DECOMPRESSION_SIZE.
+        has no front-end model) the observed class is repeated — except for the parsers with a
+        COMPLETE model (root: C03's RootFile.parse; espec: ParseFronts.ESpec grammar; bpsv /
+        buildinfo: C15's Bpsv.parse, both on all-ASCII inputs; lru: C07's Lru.deserialize;
+        updsec / residency: always ok; localhdr: ok iff ≥ 30 bytes), where ok|err is PREDICTED;
+        big = a front-end allocation exceeds c·len+k or a capped one exceeds MAX_DECOMPRESSION_SIZE.
+  lhdr <hex>   LocalHeader::from_bytes + blte_size                       → none | blte=<n>
 -/
 import Driver.Common
 import Cascette.Model.ParseGuards
+import Cascette.Model.ParseFronts
+import Cascette.Model.Bpsv
 import Cascette.Model.Integrity
 import Cascette.Spec.Md5
 open Cascette Drv
 open Cascette.Model.ParseGuards
+
 
 structure St where
   seeds : List (String × Bytes) := []
@@ -82,6 +89,27 @@ def frontOf (s : St) (parser : String) (d : Bytes) : Option Front :=
     | .panic => some { verdict := .panic }
     | .pass .. => some { verdict := .pass }
     | _ => some .error
+  | "root" => some (Model.ParseFronts.Root.front (s.size "root_hash") (s.size "root_rec") (d.map (·.toNat)))
+  | "tvfs" => some (Model.ParseFronts.TvfsB.front (d.map (·.toNat)))
+  | "parchive" => some (Model.ParseFronts.PArch.front (s.size "pa_block") (d.map (·.toNat)))
+  | "lru" => some (Model.ParseFronts.Lru.front md5H (s.size "lru_entry") d)
+  | _ => none
+
+def isAscii (d : Bytes) : Bool := d.all (fun b => b.toNat < 128)
+def asChars (d : Bytes) : List Char := d.map (fun b => Char.ofNat b.toNat)
+
+/-- parsers whose model is complete: the exact outcome (`true` = Ok). -/
+def exactOf (parser : String) (d : Bytes) : Option Bool :=
+  match parser with
+  | "root" =>
+    -- C03's complete model re-measures the list per record (quadratic): used up to 8 KiB
+    if d.length ≤ 8192 then some (Model.RootFile.parse (d.map (·.toNat))).isSome else none
+  | "espec" => if isAscii d then some (Model.ParseFronts.ESpec.parse (asChars d)).1 else none
+  | "bpsv" | "buildinfo" =>
+    if isAscii d then some (match Model.Bpsv.parse (asChars d) with | .ok _ => true | .error _ => false) else none
+  | "lru" => some (Model.Integrity.Lru.deserialize md5H d).isSome
+  | "updsec" | "residency" => some true
+  | "localhdr" => some (Model.ParseFronts.LHdr.front d).isSome
   | _ => none
 
 def step (s : St) (t : List String) : St × String :=
@@ -99,18 +127,26 @@ def step (s : St) (t : List String) : St × String :=
       match applyEdits seed es with
       | none => (s, "bad-op")
       | some d =>
-        match frontOf s parser d with
-        | none => (s, s!"{o} big=0")                -- oracle-only parser: nothing predicted
-        | some f =>
+        match frontOf s parser d, exactOf parser d with
+        | none, none => (s, s!"{o} big=0")          -- oracle-only parser: nothing predicted
+        | fo, ex =>
+          let f : Front := fo.getD { verdict := .pass }
           let abort := (f.allocs ++ f.capped).any (fun a => decide (cap < a))
           let cls := if abort then "abort" else
             match f.verdict with
             | .panic => "panic"
             | .err => "err"
-            | .pass => o
+            | .pass => match ex with
+              | some true => "ok"
+              | some false => "err"
+              | none => o
           let big := f.big c k d.length
           (s, s!"{cls} big={if big then 1 else 0}")
     | _, _, _, _, _ => (s, "bad-op")
+  | ["lhdr", h] =>
+    match parseHex h with
+    | some d => (s, match Model.ParseFronts.LHdr.front d with | none => "none" | some n => s!"blte={n}")
+    | none => (s, "bad-op")
   | _ => (s, "bad-op")
 
 def main : IO Unit := do
